@@ -44,7 +44,8 @@ type c14Cfg struct {
 	MaxV   int  `json:"max_versions"`
 }
 
-// c14In is one client operation.
+// c14In is one client operation. Kinds "config" (write of the mount
+// configuration: MaxV / CasReq / DVA) and "config-read" have no Path.
 type c14In struct {
 	Kind     string            `json:"kind"` // write patch read delete-latest delete undelete destroy meta-put meta-patch meta-read meta-delete
 	Path     string            `json:"path"`
@@ -56,13 +57,24 @@ type c14In struct {
 	MaxV     int               `json:"set_max_versions"` // meta-put / meta-patch: -1 = not supplied
 	CasReq   int               `json:"set_cas_required"` // meta-put / meta-patch: -1 = not supplied, 0 false, 1 true
 	Custom   string            `json:"set_custom,omitempty"`
-	CustomRm bool              `json:"remove_custom,omitempty"` // meta-patch: custom_metadata {"tag": null}
-	MCas     int               `json:"metadata_cas"`            // meta-put / meta-patch: -1 = not supplied
+	CustomRm bool              `json:"remove_custom,omitempty"`              // meta-patch: custom_metadata {"tag": null}
+	DVA      int               `json:"set_delete_version_after_s,omitempty"` // config: seconds, 0 = not supplied (stored field only)
+	MCas     int               `json:"metadata_cas"`                         // meta-put / meta-patch: -1 = not supplied
 }
 
 func (in c14In) String() string {
 	s := in.Kind + "(" + in.Path
 	switch in.Kind {
+	case "config":
+		if in.MaxV >= 0 {
+			s += fmt.Sprintf("max_versions=%d ", in.MaxV)
+		}
+		if in.CasReq >= 0 {
+			s += fmt.Sprintf("cas_required=%d ", in.CasReq)
+		}
+		if in.DVA > 0 {
+			s += fmt.Sprintf("delete_version_after=%ds", in.DVA)
+		}
 	case "write", "patch":
 		if in.Cas >= 0 {
 			s += fmt.Sprintf(" cas=%d", in.Cas)
@@ -218,6 +230,23 @@ func (s *c14State) clone() *c14State {
 		n.Vers[k] = v // Data maps are never mutated after creation
 	}
 	return n
+}
+
+// c14CfgString is what a read of the mount configuration shows.
+func c14CfgString(cfg c14Cfg, dva string) string {
+	return fmt.Sprintf("cas_required=%v max_versions=%d delete_version_after=%s", cfg.CasReq, cfg.MaxV, dva)
+}
+
+// c14CfgApply is the documented effect of an acknowledged configuration write:
+// the supplied settings replace the stored ones, the others stay.
+func c14CfgApply(cfg c14Cfg, in c14In) c14Cfg {
+	if in.MaxV >= 0 {
+		cfg.MaxV = in.MaxV
+	}
+	if in.CasReq >= 0 {
+		cfg.CasReq = in.CasReq == 1
+	}
+	return cfg
 }
 
 func c14Empty() *c14State { return (&c14State{Vers: map[int]c14Ver{}}).seal() }
@@ -422,9 +451,14 @@ func c14Step(cfg c14Cfg, st *c14State, in c14In, out c14Out) []*c14State {
 	return nil
 }
 
+// c14PIn: Cfgs are the mount configurations the operation may be judged by: the
+// one in effect when it was called and every one written (acknowledged) while it
+// was running; the whole operation must follow ONE of them. Empty = the
+// history's constant configuration.
 type c14PIn struct {
-	In  c14In
-	Out c14Out
+	In   c14In
+	Out  c14Out
+	Cfgs []c14Cfg
 }
 
 func c14Model(cfg c14Cfg) porcupine.Model {
@@ -433,8 +467,18 @@ func c14Model(cfg c14Cfg) porcupine.Model {
 		Step: func(state, input, output any) []any {
 			pi := input.(c14PIn)
 			var res []any
-			for _, s := range c14Step(cfg, state.(*c14State), pi.In, pi.Out) {
-				res = append(res, s)
+			cfgs := pi.Cfgs
+			if len(cfgs) == 0 {
+				cfgs = []c14Cfg{cfg}
+			}
+			seen := map[string]bool{}
+			for _, c := range cfgs {
+				for _, s := range c14Step(c, state.(*c14State), pi.In, pi.Out) {
+					if !seen[s.key] {
+						seen[s.key] = true
+						res = append(res, s)
+					}
+				}
 			}
 			return res
 		},
@@ -567,6 +611,22 @@ func (e *c14Env) request(in c14In) vReq {
 		if in.MCas >= 0 {
 			r.Data["metadata_cas"] = in.MCas
 		}
+	case "config":
+		r.Op = logical.UpdateOperation
+		r.Path = c14Mount + "/config"
+		r.Data = map[string]any{}
+		if in.MaxV >= 0 {
+			r.Data["max_versions"] = in.MaxV
+		}
+		if in.CasReq >= 0 {
+			r.Data["cas_required"] = in.CasReq == 1
+		}
+		if in.DVA > 0 {
+			r.Data["delete_version_after"] = in.DVA
+		}
+	case "config-read":
+		r.Op = logical.ReadOperation
+		r.Path = c14Mount + "/config"
 	case "meta-patch":
 		r.Op = logical.PatchOperation
 		r.Path = c14Mount + "/metadata/" + in.Path
@@ -661,6 +721,12 @@ func c14Classify(in c14In, resp *logical.Response, err error) c14Out {
 		}
 	}
 	switch in.Kind {
+	case "config-read":
+		if resp == nil || resp.Data == nil {
+			return c14Out{Class: "error"}
+		}
+		cr, _ := resp.Data["cas_required"].(bool)
+		return c14Out{Class: "ok", Meta: c14CfgString(c14Cfg{CasReq: cr, MaxV: c14Int(resp.Data["max_versions"])}, fmt.Sprint(resp.Data["delete_version_after"]))}
 	case "write", "patch":
 		if resp == nil || resp.Data == nil || resp.Data["version"] == nil {
 			return c14Out{Class: "error"}
@@ -787,6 +853,8 @@ func c14Mutates(kind string) bool { return kind != "read" && kind != "meta-read"
 type c14Stats struct {
 	overlapPairs   int
 	metaPatchPairs int // a metadata PATCH overlapping another mutator of the same path
+	cfgWrites      int // acknowledged writes of the mount configuration in the history
+	twoCfgOps      int // mutators that ran while the mount configuration was being written (two admissible configurations)
 	casRaces       int
 	casRaceOneWins int
 	writesOK       int
@@ -802,7 +870,20 @@ func (h *c14Hist) check(r *kit.Result, caseID string, faultFree bool, extra map[
 	byPath := map[string][]c14Op{}
 	var paths []string
 	var end int64
+	// acknowledged writes of the mount configuration, in order (they are issued by
+	// one client at a time); cfgTimeline[k] is in effect at the earliest from its
+	// call and at the latest until the next one returned
+	type cfgSpan struct {
+		cfg      c14Cfg
+		from, to int64
+	}
+	cfgTimeline := []cfgSpan{{cfg: h.cfg, from: -1, to: 1 << 62}}
+	var cfgOps []c14Op
 	for _, o := range h.ops {
+		if o.In.Kind == "config" || o.In.Kind == "config-read" {
+			cfgOps = append(cfgOps, o)
+			continue
+		}
 		if _, seen := byPath[o.In.Path]; !seen {
 			paths = append(paths, o.In.Path)
 		}
@@ -810,6 +891,60 @@ func (h *c14Hist) check(r *kit.Result, caseID string, faultFree bool, extra map[
 		if o.Ret > end {
 			end = o.Ret
 		}
+	}
+	sort.SliceStable(cfgOps, func(i, j int) bool { return cfgOps[i].Call < cfgOps[j].Call })
+	for _, o := range cfgOps {
+		last := &cfgTimeline[len(cfgTimeline)-1]
+		switch {
+		case o.In.Kind == "config" && o.Out.Class == "ok":
+			last.to = o.Ret
+			cfgTimeline = append(cfgTimeline, cfgSpan{cfg: c14CfgApply(last.cfg, o.In), from: o.Call, to: 1 << 62})
+			st.cfgWrites++
+		case o.In.Kind == "config":
+			st.internalErrs++
+			if faultFree {
+				r.Violate("C14-config-write-failed-without-fault", caseID, "a write of the mount configuration failed in a fault-free history: "+o.String()+" ("+o.Raw+")", map[string]any{"store": h.e.label})
+				ok = false
+			}
+		case o.In.Kind == "config-read" && o.Out.Class == "ok":
+			// a configuration read must show a configuration admissible during the read
+			good := false
+			for _, sp := range cfgTimeline {
+				if sp.from <= o.Ret && o.Call <= sp.to && o.Out.Meta == c14CfgString(sp.cfg, "0s") {
+					good = true
+				}
+			}
+			if !good {
+				var lines []string
+				for _, c := range cfgOps {
+					lines = append(lines, c.String())
+				}
+				r.Violate("C14-config-read-shows-unwritten-configuration", caseID, "a read of the mount configuration shows a configuration that no acknowledged write produced at that time: "+o.String(), map[string]any{"store": h.e.label, "initial": h.cfg, "config_ops": lines})
+				ok = false
+			}
+		}
+	}
+	admissible := func(o c14Op) []c14Cfg {
+		if len(cfgTimeline) == 1 {
+			return nil
+		}
+		ret := o.Ret
+		if o.Out.Class == "unknown" {
+			ret = 1 << 62
+		}
+		var cs []c14Cfg
+		for _, sp := range cfgTimeline {
+			if sp.from <= ret && o.Call <= sp.to {
+				dup := false
+				for _, c := range cs {
+					dup = dup || c == sp.cfg
+				}
+				if !dup {
+					cs = append(cs, sp.cfg)
+				}
+			}
+		}
+		return cs
 	}
 	sort.Strings(paths)
 	witness := func(p string) map[string]any {
@@ -820,6 +955,13 @@ func (h *c14Hist) check(r *kit.Result, caseID string, faultFree bool, extra map[
 			lines = append(lines, o.String())
 		}
 		w := map[string]any{"store": h.e.label, "config": h.cfg, "path": p, "ops": lines}
+		if len(cfgOps) > 0 {
+			var cl []string
+			for _, c := range cfgOps {
+				cl = append(cl, c.String())
+			}
+			w["mount_config_ops"] = cl
+		}
 		for k, v := range extra {
 			w[k] = v
 		}
@@ -923,7 +1065,11 @@ func (h *c14Hist) check(r *kit.Result, caseID string, faultFree bool, extra map[
 			if o.Out.Class == "unknown" {
 				ret = end + 1
 			}
-			pops = append(pops, porcupine.Operation{ClientId: o.Client, Input: c14PIn{In: o.In, Out: o.Out}, Call: o.Call, Return: ret})
+			cs := admissible(o)
+			if len(cs) > 1 && c14Mutates(o.In.Kind) {
+				st.twoCfgOps++
+			}
+			pops = append(pops, porcupine.Operation{ClientId: o.Client, Input: c14PIn{In: o.In, Out: o.Out, Cfgs: cs}, Call: o.Call, Return: ret})
 		}
 		res := porcupine.CheckOperationsTimeout(c14Model(h.cfg), pops, 2*time.Minute)
 		r.Count("porcupine_partitions_checked", 1)
@@ -1136,7 +1282,7 @@ func c14ShardOf() int {
 func TestVerif_C14_Sequential(t *testing.T) {
 	seed := kit.Seed(14)
 	shard := c14ShardOf()
-	r := kit.NewResult(t, "c14-sequential", seed, "single-client histories of 60 operations (write/patch with cas absent, equal, stale, ahead or 0; read current / numbered version; delete latest; delete, undelete, destroy of version lists; metadata put and metadata PATCH (JSON merge patch, incl. removal of a custom metadata key) of max_versions in {0,2,3}, cas_required, custom metadata with and without metadata_cas; metadata read; metadata delete; mount config changes of cas_required and max_versions) on two paths, transactional and non-transactional store: every response is compared with the reference versioned-register model; a history is non-trivial when it contains a refused CAS write, a pruned version and a deleted or destroyed version read; distinct by its operation/response sequence")
+	r := kit.NewResult(t, "c14-sequential", seed, "single-client histories of 60 operations (write/patch with cas absent, equal, stale, ahead or 0; read current / numbered version; delete latest; delete, undelete, destroy of version lists; metadata put and metadata PATCH (JSON merge patch, incl. removal of a custom metadata key) of max_versions in {0,2,3}, cas_required, custom metadata with and without metadata_cas; metadata read; metadata delete; writes of the mount configuration (cas_required, max_versions) every 20 operations with probability 1/2, half of them with one storage operation of the request failing: a config write that reported failure leaves the reference configuration unchanged) on two paths, transactional and non-transactional store: every response is compared with the reference versioned-register model; a history is non-trivial when it contains a refused CAS write, a pruned version and a deleted or destroyed version read; distinct by its operation/response sequence")
 	defer r.Write(t)
 	for _, tx := range []bool{false, true} {
 		e := c14Boot(t, tx, false)
@@ -1163,6 +1309,8 @@ func TestVerif_C14_Sequential(t *testing.T) {
 	r.Require("seq_reads_of_deleted_or_destroyed", 150)
 	r.Require("seq_reads_ok", 500)
 	r.Require("seq_metadata_patches_applied_to_key_with_versions", 200)
+	r.Require("seq_config_writes_failed_by_fault", 40)
+	r.Require("seq_config_writes_acknowledged", 60)
 }
 
 func c14SeqCase(e *c14Env, r *kit.Result, rng *kit.Rand, caseID string) {
@@ -1175,6 +1323,7 @@ func c14SeqCase(e *c14Env, r *kit.Result, rng *kit.Rand, caseID string) {
 	h := &c14Hist{e: e, cfg: cfg}
 	var trace []string
 	flags := map[string]bool{}
+	var ghost *c14Cfg // configuration of the last config write that REPORTED FAILURE (nil after an acknowledged one)
 	r.Eval(1)
 	for i := 0; i < 60; i++ {
 		if i > 0 && i%20 == 0 && rng.Chance(1, 2) {
@@ -1186,10 +1335,40 @@ func c14SeqCase(e *c14Env, r *kit.Result, rng *kit.Rand, caseID string) {
 					ncfg.MaxV = 0
 				}
 			}
-			cfg = ncfg
+			// the configuration write goes through the API like any other operation;
+			// half of them with one storage operation of the request failing
+			cin := c14Config(ncfg.MaxV, int(b2u14(ncfg.CasReq)))
+			armedN := 0
+			if rng.Chance(1, 2) {
+				armedN = 1 + rng.Intn(5)
+				e.v.Probe.FailNth(func(ev kit.Event) bool { return ev.Tag == "cfgw" }, armedN)
+			}
+			cout, craw := e.execTag(cin, "cfgw")
+			fired := e.v.Probe.ClearFaults()
+			r.Count("seq_ops", 1)
+			switch {
+			case cout.Class == "ok":
+				cfg, ghost = ncfg, nil
+				r.Count("seq_config_writes_acknowledged", 1)
+			case fired > 0:
+				// reported failure: the effective configuration must be what it was
+				g2 := ncfg
+				ghost = &g2
+				r.Count("seq_config_writes_failed_by_fault", 1)
+			default:
+				r.Violate("C14-config-write-failed-without-fault", caseID, fmt.Sprintf("step %d: %s failed although no fault fired: %s", i, cin.String(), craw), map[string]any{"store": e.label, "config": cfg, "trace": trace})
+				return
+			}
 			g.cfg = cfg
-			e.setCfg(cfg)
-			trace = append(trace, fmt.Sprintf("config %+v", cfg))
+			trace = append(trace, fmt.Sprintf("%s [storage op %d of the request fails: %v] -> %s; reference configuration now %+v", cin.String(), armedN, fired > 0, cout.Class, cfg))
+			if cr, _ := e.exec(c14In{Kind: "config-read"}); cr.Class != "ok" || cr.Meta != c14CfgString(cfg, "0s") {
+				class := "C14-seq-config-read"
+				if ghost != nil {
+					class = "C14-failed-config-write-changed-effective-configuration"
+				}
+				r.Violate(class, caseID, fmt.Sprintf("step %d: after %s -> %s the configuration read shows %q, the reference says %q", i, cin.String(), cout.Class, cr.Meta, c14CfgString(cfg, "0s")), map[string]any{"store": e.label, "trace": trace})
+				return
+			}
 		}
 		in := c14Gen(rng, g, know, i)
 		if (in.Kind == "meta-put" || in.Kind == "meta-patch") && in.MaxV > 0 && cfg.MaxV > in.MaxV {
@@ -1210,6 +1389,12 @@ func c14SeqCase(e *c14Env, r *kit.Result, rng *kit.Rand, caseID string) {
 				class = "C14-seq-read-outcome"
 			case "meta-read":
 				class = "C14-seq-metadata"
+			}
+			if ghost != nil {
+				if gexp, _ := c14Apply(*ghost, st, in); c14OutEq(gexp, op.Out) {
+					// the answer is the one the configuration of the FAILED config write would give
+					class = "C14-failed-config-write-changed-effective-configuration"
+				}
 			}
 			if len(trace) > 70 {
 				trace = trace[len(trace)-70:]
@@ -1311,6 +1496,10 @@ func c14MetaPut(p string, maxv, casreq int, custom string) c14In {
 
 func c14MetaPatch(p string, maxv, casreq int, custom string, mcas int) c14In {
 	return c14In{Kind: "meta-patch", Path: p, Cas: -1, MaxV: maxv, CasReq: casreq, Custom: custom, MCas: mcas}
+}
+
+func c14Config(maxv, casreq int) c14In {
+	return c14In{Kind: "config", Cas: -1, MaxV: maxv, CasReq: casreq, MCas: -1}
 }
 
 func c14FaultScens() []c14FaultScen {
@@ -1706,6 +1895,12 @@ func c14RunConcurrent(e *c14Env, r *kit.Result, caseID string, seed int64, strea
 		r.Count("concurrent_faults_fired", 1)
 	}
 	h.readBack(pl.paths)
+	for _, o := range h.ops {
+		if o.In.Kind == "config" {
+			h.add(h.do(0, c14In{Kind: "config-read"}))
+			break
+		}
+	}
 	extra := map[string]any{}
 	if pol != nil {
 		extra["schedule"] = c14Trunc(sched.String(), 4000)
@@ -1714,6 +1909,8 @@ func c14RunConcurrent(e *c14Env, r *kit.Result, caseID string, seed int64, strea
 	r.Count("ops", len(h.ops))
 	r.Count("overlapping_op_pairs_same_path", st.overlapPairs)
 	r.Count("metadata_patch_overlapping_another_mutator", st.metaPatchPairs)
+	r.Count("mount_config_writes_in_concurrent_histories", st.cfgWrites)
+	r.Count("mutators_overlapping_a_mount_config_write", st.twoCfgOps)
 	r.Count("cas_races_overlapped", st.casRaces)
 	r.Count("cas_races_exactly_one_winner", st.casRaceOneWins)
 	r.Count("writes_ok", st.writesOK)
@@ -1808,6 +2005,7 @@ type c14Scen struct {
 
 func c14Scens() []c14Scen {
 	two := func(p string) []c14In { return []c14In{c14W(p, 0, "a1"), c14W(p, 1, "a2")} }
+	three := func(p string) []c14In { return append(two(p), c14W(p, 2, "a3")) }
 	rd := func(p string, v int) c14In {
 		return c14In{Kind: "read", Path: p, Version: v, Cas: -1, MaxV: -1, CasReq: -1, MCas: -1}
 	}
@@ -1867,6 +2065,23 @@ func c14Scens() []c14Scen {
 		{"metapatch-undelete-write", c14Cfg{}, func(p string) []c14In { return append(two(p), c14Op1("delete", p, 2)) }, func(p string) [][]c14In {
 			return [][]c14In{{c14MetaPatch(p, -1, -1, "m", -1)}, {c14Op1("undelete", p, 2)}, {c14W(p, -1, "x")}}
 		}, false},
+		// a write of the MOUNT configuration against data writes: each write follows the
+		// configuration before or after it as a whole (cas requirement and pruning)
+		{"config-casreq-write-read", c14Cfg{}, three, func(p string) [][]c14In {
+			return [][]c14In{{c14Config(-1, 1)}, {c14W(p, -1, "x"), rd(p, 0)}, {c14W(p, 3, "y")}}
+		}, false},
+		{"config-max1-writecas-read", c14Cfg{}, three, func(p string) [][]c14In {
+			return [][]c14In{{c14Config(1, -1), c14In{Kind: "config-read"}}, {c14W(p, 3, "x")}, {rd(p, 1), rd(p, 2)}}
+		}, false},
+		{"config-max2-patch-write", c14Cfg{}, three, func(p string) [][]c14In {
+			return [][]c14In{{c14Config(2, -1)}, {c14Patch(p, -1, "x")}, {c14W(p, -1, "y")}}
+		}, false},
+		{"config-both-write-writecas", c14Cfg{}, three, func(p string) [][]c14In {
+			return [][]c14In{{c14Config(1, 1)}, {c14W(p, -1, "x")}, {c14W(p, 3, "y"), rd(p, 3)}}
+		}, false},
+		{"config-relax-write-patch", c14Cfg{CasReq: true, MaxV: 2}, three, func(p string) [][]c14In {
+			return [][]c14In{{c14Config(0, 0), c14W(p, -1, "z")}, {c14W(p, -1, "x")}, {c14Patch(p, 3, "y")}}
+		}, false},
 	}
 }
 
@@ -1874,7 +2089,7 @@ func TestVerif_C14_Gated(t *testing.T) {
 	seed := kit.Seed(14)
 	shard := c14ShardOf()
 	_, nshards := kit.Shard()
-	r := kit.NewResult(t, "c14-gated", seed, "concurrent clients under the storage-operation gate (gate points: every storage operation under the kv mount's physical prefix and every transaction begin/operation/commit of the tagged clients), transactional and non-transactional store: (a) eighteen fixed 2-3 client scenarios on one path (CAS races incl. cas=0 on a new key and under cas_required, write/write/read, write/delete, patch/write, patch/patch, pruning/read, destroy/patch, metadata put/write, undelete/delete/write, metadata delete/write, and a metadata PATCH against write, cas write, delete+destroy, metadata put, patch, undelete+write) enumerated depth-first with <=2 preemptions (run cap) and run under uniformly random schedules, (b) generated workloads of 3-6 clients, 20-40 operations over 2-3 paths under seeded PCT schedules (depth 3 and 12) and uniformly random schedules, a quarter of them with one storage fault inside a write; each history (+ sequential preamble and final read-back of metadata and every version) is checked by porcupine per path against the versioned-register model, plus direct counters (no duplicate version, no gap, one winner per cas value, final current_version not below an acknowledged version); non-trivial = operations of different clients on the same path overlapped in time and a write succeeded; distinct by (operation/response sequence, storage-op order hash)")
+	r := kit.NewResult(t, "c14-gated", seed, "concurrent clients under the storage-operation gate (gate points: every storage operation under the kv mount's physical prefix and every transaction begin/operation/commit of the tagged clients), transactional and non-transactional store: (a) twenty-three fixed 2-3 client scenarios on one path (CAS races incl. cas=0 on a new key and under cas_required, write/write/read, write/delete, patch/write, patch/patch, pruning/read, destroy/patch, metadata put/write, undelete/delete/write, metadata delete/write, a metadata PATCH against write, cas write, delete+destroy, metadata put, patch, undelete+write, and a write of the MOUNT configuration (cas_required / max_versions, tightening and relaxing) against write, cas write and patch, where every operation that ran while the configuration was being written is judged as a whole by the configuration before or after it) enumerated depth-first with <=2 preemptions (run cap) and run under uniformly random schedules, (b) generated workloads of 3-6 clients, 20-40 operations over 2-3 paths under seeded PCT schedules (depth 3 and 12) and uniformly random schedules, a quarter of them with one storage fault inside a write; each history (+ sequential preamble and final read-back of metadata and every version) is checked by porcupine per path against the versioned-register model, plus direct counters (no duplicate version, no gap, one winner per cas value, final current_version not below an acknowledged version); non-trivial = operations of different clients on the same path overlapped in time and a write succeeded; distinct by (operation/response sequence, storage-op order hash)")
 	defer r.Write(t)
 	for _, tx := range []bool{false, true} {
 		e := c14Boot(t, tx, false)
@@ -1965,6 +2180,7 @@ func TestVerif_C14_Gated(t *testing.T) {
 	r.Require("concurrent_faults_fired", 5)
 	r.Require("gate_requests_judged_blocked_on_a_lock", 50)
 	r.Require("metadata_patch_overlapping_another_mutator", 150)
+	r.Require("mutators_overlapping_a_mount_config_write", 150)
 }
 
 func c14RunScen(e *c14Env, r *kit.Result, seed int64, sc c14Scen, si int, pol kit.Policy) (kit.Schedule, bool) {
